@@ -17,6 +17,14 @@ CHECKS = {
          "exhaustive small-scope enumeration of messages; differential comparison with an independent RFC 1035/9460 codec (dnsref) and x/net dnsmessage in both directions",
          "All header flag combinations, a name pool covering 0/1/2/127 labels and label lengths 1/63 in every name position, every subset of HTTPS parameters, OPT option lists, every message with <=2 records per section over record pools (package-built and reference-built, uncompressed and maximally compressed), extended RCODE grid and AddPadding for every question-name length 1..253 x OPT states are enumerated completely; each case is round-tripped and cross-decoded by two independent codecs.",
          "trusts dnsref and x/net dnsmessage v0.42.0; HTTPS parameter keys limited to 1..6 ascending (what dns.HTTPS can represent)", "§3 C13"),
+ "C02": ("fault_enumeration", "E1 enum",
+         "exhaustive fault enumeration on spec-built hellos: every single-bit flip, every truncation, every substitution class; crypto/tls as second oracle",
+         "For 36 base tuples sealed by an independent reference sender (validated against crypto/tls), every single-bit flip of the outer ClientHello message, every truncation of enc and payload, and each wrong-key/wrong-info/wrong-suite/wrong-config-id/wrong-sequence substitution is fed to the real NewConn; acceptance of any of them is a violation, as is a fall-back that does not forward the client's bytes.",
+         "trusts tlsref/hpkeref (validated on each run against crypto/tls); record header not covered by flips", "§3 C02"),
+ "C03": ("model_checking", "E1 enum",
+         "executable reference model of ECH encoding/reconstruction (draft §5.1, App. B) + total replay of every enumerated layout on the real NewConn",
+         "Every compression subset of 6 shared extensions x every marker position x inner-ECH position x outer layout x padding x session-id length x AEAD is sealed by the reference sender and the record forwarded by the real Conn is compared byte for byte with the reference reconstruction; all model traces are replayed on the implementation.",
+         "trusts tlsref/hpkeref (validated against crypto/tls and RFC 9180 vectors at every run); outer hellos never repeat an extension type", "§3 C03"),
 }
 
 NOT_YET = {}
